@@ -234,6 +234,10 @@ func (w *world) genTrimTxt() trimTxt {
 	}
 	// exactly 24h: d = 24h + frac >= 24h -> due
 	opts = append(opts, trimTxt{"now-24h", s(fmt.Sprint(n - 86400)), 1})
+	// a recent time followed by junk is a corrupt record like any other: the trim is due
+	for _, junk := range []string{".500", " 1600000000", "\x00\x00\x00\x00", "<<<<<<< HEAD", "\ngarbage\n", "e3", "x"} {
+		opts = append(opts, trimTxt{"recent time followed by junk", s(fmt.Sprint(n-600) + junk), 1})
+	}
 	_ = frac
 	if !w.hook {
 		// real clock: keep clear of the boundaries
